@@ -72,7 +72,6 @@ def runLine (l : String) : String :=
       | "filter" => opFilter args
       | "hist" => opHist args
       | "cont" => opCont args
-      | "hashalg" => opHashAlg args
       | "decv" => opDecv args
       | "enc" => opEnc args
       | "jenc" => opJenc args
